@@ -17,7 +17,7 @@ FC_TYPES = ['u8', 'i8', 'u16', 'i16', 'u32', 'i32', 'u64', 'i64', 'f32', 'f64']
 
 @st.composite
 def daqmx_file(draw, max_segments=3, max_channels=4, max_buffers=3, max_len=5, max_chunks=3, max_width=16,
-               be=True, fixed_be=None, carry=True):
+               be=True, fixed_be=None, carry=True, short_mid=False):
     nch = draw(st.integers(1, max_channels))
     # channel definitions that must stay fixed over the file: kind, channel type, scaler (id, type)
     chans = []
@@ -144,6 +144,12 @@ def daqmx_file(draw, max_segments=3, max_channels=4, max_buffers=3, max_len=5, m
         if carried:
             seg['eff_entries'] = eff
         segs.append(seg)
+    if short_mid and len(segs) >= 2 and draw(st.integers(0, 2)) == 0:
+        # a segment that is not the last one lost the tail of its final chunk (its lead-in states the shortened size)
+        k = draw(st.integers(0, len(segs) - 2))
+        chunk_bytes = sum(l * w for l, w in zip(segs[k]['buf_lens'], segs[k]['widths']))
+        if chunk_bytes >= 2:
+            segs[k] = dict(segs[k], trim_raw=draw(st.integers(1, chunk_bytes - 1)))
     return {'segments': segs}
 
 
@@ -181,11 +187,17 @@ def expected_daqmx(fs):
             o = out.setdefault(ent['path'], {'chan_type': ent['chan_type'], 'scalers': {}, 'chunks': [], 'len': 0,
                                              'kind': ent['kind']})
             for k in range(seg['nchunks']):
-                o['chunks'].append((si, k, ent['n']))
-                o['len'] += ent['n']
+                n = ent['n']
+                if seg.get('trim_raw') and k == seg['nchunks'] - 1:
+                    # the segment's last chunk lost its tail: only rows complete in every buffer the channel uses
+                    chunk_bytes = sum(l * w for l, w in zip(seg['buf_lens'], seg['widths']))
+                    rows = truncated_expectation(seg, chunk_bytes - seg['trim_raw'])
+                    n = min([n] + [rows[s['buf']] for s in ent['scalers']])
+                o['chunks'].append((si, k, n))
+                o['len'] += n
                 for s in ent['scalers']:
                     t, acc = o['scalers'].get(s['id'], (s['type'], b''))
-                    o['scalers'][s['id']] = (t, acc + scaler_chunk_values(seg, ent, s, k))
+                    o['scalers'][s['id']] = (t, acc + scaler_chunk_values(seg, ent, s, k, rows=n))
     return out
 
 
